@@ -1377,3 +1377,10 @@ package rockredis
 //@ func (db *RockDB) PFAdd(ts int64, rawKey []byte, elems ...[]byte) (int64, error)
 //@   requires dbReady(db) && db.hllCache != nil
 //@   modifies *
+
+//@ property C19
+//@ func (r *RockDB) RestoreFromRemoteBackup(term uint64, index uint64) error
+//@   trusted restores the engine from a transferred checkpoint; ghost(restores / restorefails, r) count the outcomes
+//@   ensures result == nil ==> ghost(restores, r) == old(ghost(restores, r)) + 1 && ghost(restorefails, r) == old(ghost(restorefails, r))
+//@   ensures result != nil ==> ghost(restorefails, r) == old(ghost(restorefails, r)) + 1 && ghost(restores, r) == old(ghost(restores, r))
+//@   modifies ghost(restores, r), ghost(restorefails, r)
